@@ -6,7 +6,7 @@ CONSTANTS
   MaxScript = 3
   MaxCalls = 2
   Scenario = "dict2"
-  BuildKinds = {"D", "L"}
+  BuildKinds = {"D", "DI", "L"}
   MinEdits = 0
   Kinds = {"jit", "remat", "cond", "switch", "while", "fori"}
 SPECIFICATION USpec
